@@ -72,6 +72,8 @@ def run(tier, seed, opens):
     from bitcoinlib.wallets import Wallet
     from bitcoinlib.keys import HDKey
     t0 = time.time()
+    import random as _random
+    _random.seed(909 + seed)           # the library itself draws from the global generator (output order, number of change outputs)
     rng = random.Random(909 + seed)
     tmp = tempfile.mkdtemp(prefix='c09-', dir=os.environ.get('BCL_DATA_DIR'))
     cases = ok = 0
@@ -135,10 +137,11 @@ def run(tier, seed, opens):
             script = [('key_for_path', 0, 0, 2), ('key_for_path', 0, 0, 1), ('new_key', 0), ('new_key', 0), ('new_keys3', 0), ('new_key', 0), ('get_keys', 0), ('new_account',),
                       ('new_key', 0), ('set_default_account', 1), ('new_key', 0), ('new_key_change', 0), ('get_key', 0), ('key_for_path', 0, 1, 3),
                       ('key_for_path', 0, 1, 1), ('reopen',), ('new_key_change', 0), ('new_key', 1), ('set_default_account', 0),
+                      ('full_path', 1, 0, 3), ('new_key', 1), ('new_key', 0),
                       ('get_keys', 0, 'other'), ('new_key', 0, 'other'), ('new_key', 0, 'other'), ('new_key_change', 0, 'other'), ('reopen',), ('new_key', 0, 'other')]
             for step in range(len(script) + n_steps):
                 forced = script[step] if step < len(script) else None
-                op = forced[0] if forced else rng.choice(['new_key', 'new_key', 'new_key_change', 'get_key', 'get_keys', 'key_for_path', 'key_for_path', 'new_account', 'reopen', 'new_keys3'])
+                op = forced[0] if forced else rng.choice(['new_key', 'new_key', 'new_key_change', 'get_key', 'get_keys', 'key_for_path', 'key_for_path', 'new_account', 'reopen', 'new_keys3', 'full_path'])
                 acc = forced[1] if forced and len(forced) > 1 else rng.choice(sorted(accounts))
                 others = [t for t in ('legacy', 'p2sh-segwit', 'segwit') if t != wt]
                 if forced:
@@ -194,6 +197,21 @@ def run(tier, seed, opens):
                         r = check_key(k, op, acc, change, idx, rw)
                         if r:
                             issued.setdefault((acc, change, rw), set()).add(idx)
+                    elif op == 'full_path':
+                        # the complete path is given as text, without an account_id argument: the key belongs to the account its path names
+                        change, idx = (forced[2], forced[3]) if forced else (rng.choice([0, 1]), rng.randrange(0, 7))
+                        full = "m/%d'/%d'/%d'/%d/%d" % (PURPOSE[wt], coin, acc, change, idx)
+                        k = w.key_for_path(full)
+                        history.append('key_for_path(%r)' % full)
+                        r = check_key(k, op, acc, change, idx, wt)
+                        cases += 1
+                        if getattr(k, 'account_id', acc) != acc:
+                            fail(op, {'wallet': {'witness_type': wt, 'network': net, 'seed': sd.hex()}, 'history': list(history)},
+                                 'key %s is filed under account %r' % (k.path, getattr(k, 'account_id', None)), 'account %d' % acc)
+                        else:
+                            ok += 1
+                        if r:
+                            issued.setdefault((acc, change, wt), set()).add(idx)
                     elif op == 'set_default_account':
                         w.default_account_id = acc
                         history.append('default_account_id = %d' % acc)
